@@ -35,6 +35,8 @@ REQUIRED = ["CifModel.C12_clean", "CifModel.C12_first_report_is_policy_free", "C
             "CifModel.Props.C12Chars.C12_chars_missing_value_instance",
             "CifModel.Model.Parser.Reach.det", "CifModel.Lemmas.DefectChars.reach_chunks", "CifModel.Lemmas.DefectChars.reach_line", "CifModel.Lemmas.DefectChars.reach_line_pending", "CifModel.Lemmas.DefectChars.posTok_snoc", "CifModel.Lemmas.DefectChars.block_defect_chars",
             "CifModel.Lemmas.DefectChars.line_pending", "CifModel.Lemmas.DefectChars.line_consumed",
+            "CifModel.Lemmas.DefectChars.reach_end", "CifModel.Lemmas.DefectChars.repAt_line", "CifModel.Props.OneReportAt.one",
+            "CifModel.Props.C12Chars.C12_chars_instance_lines",
             # scanner-level classes (Props/C12Scan.lean, group gD)
             "CifModel.C12_disallowed_initial_char", "CifModel.C12_missing_space", "CifModel.C12_missing_space_value",
             "CifModel.C12_missing_space_glued_bracket", "CifModel.C12_missing_endquote", "CifModel.C12_unclosed_text",
